@@ -19,7 +19,8 @@ MANIFEST = dict(
          "every error kind (404, 409, 410, 422, 500, timeout) and every hook failure (5xx, 429, refused, 404), singly and in pairs, "
          "and carries the error-handling table of the code, checked by TLC against the statement's benign-race rule; each case is "
          "replayed through the real processNextWorkItem with a recording work queue, followed by fault-free syncs; TLC validates the "
-         "trace against spec/TraceSync.tla (C12_ErrorRequeues, C12_429After, C12_OthersProceed, C12_NoPanic, C12_Recovers).",
+         "trace against spec/TraceSync.tla (C12_ErrorRequeues, C12_429After, C12_OthersProceed, C12_NoPanic, C12_Recovers)."
+         ' Bases: in-place, recreate, rolling (ControllerRevision writes, per-revision hook calls), finalizing (draining and finalizer removal), customize (fault on the customize call, sync answer depending on the related map), decorator.',
     ref="DESIGN.md §8 C12",
     tech="TLA+ fault table + TLC enumeration of fault positions replayed on real code + TLC trace validation",
     cat="model_checking")
